@@ -85,6 +85,7 @@ type c06Space struct {
 	incrCmds []int // per key: which command creates it in the incremental path
 	// target.db of the incremental path (-1: keep the source database)
 	incrTargetDB int
+	incrMset     bool // keys that share a database arrive in one MSET
 	scripts      int
 	filt         filterConf
 }
@@ -116,6 +117,7 @@ func drawC06Space(t *rapid.T) c06Space {
 	}
 	s.scripts = rapid.IntRange(0, 2).Draw(t, "scripts")
 	s.incrTargetDB = rapid.SampledFrom([]int{-1, -1, 0, 1, 3}).Draw(t, "incrTargetDB")
+	s.incrMset = rapid.Bool().Draw(t, "incrMset")
 	var names []string
 	for _, k := range s.keys {
 		names = append(names, k.key)
@@ -287,7 +289,34 @@ func c06Paths(t *rapid.T) {
 			encodeCmd(&buf, argv)
 			st.cmds = append(st.cmds, srcCmd{argv: argv, end: int64(buf.Len())})
 		}
+		// keys of one database may also arrive in a single multi-key command (MSET): the filter then has to take the command apart
+		viaMset := map[int]bool{}
+		if s.incrMset {
+			byDB := map[int][]int{}
+			for i, k := range s.keys {
+				byDB[k.db] = append(byDB[k.db], i)
+			}
+			dbs := make([]int, 0, len(byDB))
+			for db := range byDB {
+				dbs = append(dbs, db)
+			}
+			sort.Ints(dbs)
+			for _, db := range dbs {
+				if idx := byDB[db]; len(idx) >= 2 {
+					add(bb("select", strconv.Itoa(db)))
+					args := []string{"mset"}
+					for _, i := range idx {
+						args = append(args, s.keys[i].key, "v:"+s.keys[i].key)
+						viaMset[i] = true
+					}
+					add(bb(args...))
+				}
+			}
+		}
 		for i, k := range s.keys {
+			if viaMset[i] {
+				continue
+			}
 			add(bb("select", strconv.Itoa(k.db)))
 			// commands of different arity, all of which create the key (INCR: the key is the only argument)
 			switch s.incrCmds[i] {
